@@ -246,6 +246,55 @@ type stdJSON struct{}
 func (stdJSON) Marshal(v interface{}) ([]byte, error)      { return json.Marshal(v) }
 func (stdJSON) Unmarshal(data []byte, v interface{}) error { return json.Unmarshal(data, v) }
 
+// long-lived helper receivers (one per kind and encoding) with what they returned last time
+var c02Held = *geojson.NewGeometry(orb.Point{0, 0})
+
+var (
+	c02HP, c02HPb   geojson.Point
+	c02HMP, c02HMPb geojson.MultiPoint
+	c02HL, c02HLb   geojson.LineString
+	c02HML, c02HMLb geojson.MultiLineString
+	c02HPg, c02HPgb geojson.Polygon
+	c02HMg, c02HMgb geojson.MultiPolygon
+	c02HPrev        = map[string]orb.Geometry{}
+	c02HPrevBits    = map[string]string{}
+)
+
+func c02Helpers(g orb.Geometry, data, bdata []byte) int {
+	ok := 1
+	try := func(key string, dec func() (orb.Geometry, error)) {
+		got, err := dec()
+		if err != nil || !orb.Equal(got, g) {
+			ok = 0
+		}
+		if prev, has := c02HPrev[key]; has && geomBits(prev) != c02HPrevBits[key] {
+			ok = 0
+		}
+		c02HPrev[key], c02HPrevBits[key] = got, geomBits(got)
+	}
+	switch g.(type) {
+	case orb.Point:
+		try("P", func() (orb.Geometry, error) { err := c02HP.UnmarshalJSON(data); return c02HP.Geometry(), err })
+		try("Pb", func() (orb.Geometry, error) { err := c02HPb.UnmarshalBSON(bdata); return c02HPb.Geometry(), err })
+	case orb.MultiPoint:
+		try("MP", func() (orb.Geometry, error) { err := c02HMP.UnmarshalJSON(data); return c02HMP.Geometry(), err })
+		try("MPb", func() (orb.Geometry, error) { err := c02HMPb.UnmarshalBSON(bdata); return c02HMPb.Geometry(), err })
+	case orb.LineString:
+		try("L", func() (orb.Geometry, error) { err := c02HL.UnmarshalJSON(data); return c02HL.Geometry(), err })
+		try("Lb", func() (orb.Geometry, error) { err := c02HLb.UnmarshalBSON(bdata); return c02HLb.Geometry(), err })
+	case orb.MultiLineString:
+		try("ML", func() (orb.Geometry, error) { err := c02HML.UnmarshalJSON(data); return c02HML.Geometry(), err })
+		try("MLb", func() (orb.Geometry, error) { err := c02HMLb.UnmarshalBSON(bdata); return c02HMLb.Geometry(), err })
+	case orb.Polygon:
+		try("Pg", func() (orb.Geometry, error) { err := c02HPg.UnmarshalJSON(data); return c02HPg.Geometry(), err })
+		try("Pgb", func() (orb.Geometry, error) { err := c02HPgb.UnmarshalBSON(bdata); return c02HPgb.Geometry(), err })
+	case orb.MultiPolygon:
+		try("Mg", func() (orb.Geometry, error) { err := c02HMg.UnmarshalJSON(data); return c02HMg.Geometry(), err })
+		try("Mgb", func() (orb.Geometry, error) { err := c02HMgb.UnmarshalBSON(bdata); return c02HMgb.Geometry(), err })
+	}
+	return ok
+}
+
 func init() {
 	register("geojson", func(c *ctx) {
 		// values that every event decodes into again (a decoder loop reusing one variable), and the bytes handed out
@@ -295,7 +344,7 @@ func init() {
 					}
 				}
 				gm, _ := encGeom(g, in.fn())
-				e := jdoc{"k": "geom", "g": gm, "err": "", "same": 0, "nt": 1, "routes": 0, "stable": 0}
+				e := jdoc{"k": "geom", "g": gm, "err": "", "same": 0, "nt": 1, "routes": 0, "stable": 0, "hkept": 1}
 				setCurrent("geojson.Geometry", gm)
 				site := guard(func() {
 					data, err := geojson.NewGeometry(g).MarshalJSON()
@@ -341,11 +390,22 @@ func init() {
 						return
 					}
 					e["reb"], _ = encGeom(reGb.Geometry(), in.fn())
+					// the typed helpers (geojson.Point, LineString, ...) as long-lived receivers: each decodes this document into
+					// the receiver that took the previous documents of its kind, returns the same value, and leaves alone what
+					// it returned before (results kept by the caller do not live in the receiver's memory)
+					e["hkept"] = c02Helpers(g, data, bdata)
 					// other routes to the same document: json.Marshal, a Geometry literal around the value
 					viaStd, _ := json.Marshal(geojson.NewGeometry(g))
 					lit, _ := (&geojson.Geometry{Coordinates: g}).MarshalJSON()
 					blit, _ := bson.Marshal(&geojson.Geometry{Coordinates: g})
-					if bytes.Equal(viaStd, data) && bytes.Equal(lit, data) && bytes.Equal(blit, bdata) {
+					// (Geometry marshals through pointer receivers by design; Feature and FeatureCollection through value
+					// receivers, and are also handed over by value below)
+					// ... and a long-lived Geometry value whose Coordinates field is simply assigned the next geometry (whatever
+					// kind the value held before)
+					c02Held.Coordinates = g
+					held, _ := c02Held.MarshalJSON()
+					bheld, _ := bson.Marshal(&c02Held)
+					if bytes.Equal(viaStd, data) && bytes.Equal(lit, data) && bytes.Equal(blit, bdata) && bytes.Equal(held, data) && bytes.Equal(bheld, bdata) {
 						e["routes"] = 1
 					}
 					e["stable"] = stable(data, again)
@@ -432,7 +492,13 @@ func init() {
 					}
 					e["reb"] = featModel(in, reFb)
 					viaStd, _ := json.Marshal(f)
-					if bytes.Equal(viaStd, data) {
+					viaVal, _ := json.Marshal(*f) // by value
+					valF := &geojson.Feature{}
+					vb, verr := bson.Marshal(*f)
+					if verr == nil {
+						verr = bson.Unmarshal(vb, valF)
+					}
+					if bytes.Equal(viaStd, data) && bytes.Equal(viaVal, data) && verr == nil && fmt.Sprint(featModel(in, valF)) == fmt.Sprint(featModel(in, bf)) {
 						e["routes"] = 1
 					}
 					e["stable"] = stable(data, again)
@@ -535,7 +601,14 @@ func init() {
 					}
 					e["reb"] = model(reFCb)
 					viaStd, _ := json.Marshal(fc)
-					if bytes.Equal(viaStd, data) {
+					// ... and the collection handed over by value (not through a pointer), to both encoders
+					viaVal, _ := json.Marshal(*fc)
+					valFC := geojson.NewFeatureCollection()
+					vb, verr := bson.Marshal(*fc)
+					if verr == nil {
+						verr = bson.Unmarshal(vb, valFC)
+					}
+					if bytes.Equal(viaStd, data) && bytes.Equal(viaVal, data) && verr == nil && fmt.Sprint(model(valFC)) == fmt.Sprint(model(bfc)) {
 						e["routes"] = 1
 					}
 					e["stable"] = stable(data, again)
